@@ -208,6 +208,9 @@ type c17Op struct {
 	// operation: 0 = a few thousand instructions (every secret), 1 = tens of thousands
 	// (a third of the secrets), 2 = hundreds of thousands (a handful of secrets)
 	cost int
+	// maxSecrets, when set, bounds the number of secrets the source-level monitor runs the
+	// operation for (operations that take tens of milliseconds per call)
+	maxSecrets int
 }
 
 var (
@@ -395,6 +398,18 @@ func c17Ops() []c17Op {
 			}
 			return func() { new(Point).MultiScalarMult(ss, ps) }
 		}, vars: 7, cost: 2},
+		// long lists: implementations switch algorithm with the batch size (chunking, bucket
+		// methods from a few hundred terms on); every scalar is derived from the secret.
+		// cost 3: source-level monitor only (hundreds of millions of instructions per call)
+		{zeroOK: true, name: "MultiScalarMult/long-list", prep: func(s c17Secret, v int) func() {
+			l := []int{300, 520, 1030}[v%3]
+			ss, ps := make([]*Scalar, l), make([]*Point, l)
+			for i := range ss {
+				ss[i] = scalarFromBig(oracle.Mod(new(big.Int).Add(oracle.MulM(s.v, big.NewInt(int64(2*i+1)), n), big.NewInt(int64(i))), n))
+				ps[i] = pubPoint(i)
+			}
+			return func() { new(Point).MultiScalarMult(ss, ps) }
+		}, vars: 3, cost: 3, maxSecrets: 10},
 		{name: "Point.ops-on-secret-point", prep: func(s c17Secret, v int) func() {
 			Q := new(Point).ScalarBaseMult(scalarFromBig(s.v)) // secret non-identity point in a "natural" representative
 			P := pubPoint(v)
@@ -580,7 +595,7 @@ func CTProbe(seed int64, tier string, only map[int]bool) []CTPlanEntry {
 	var plan []CTPlanEntry
 	for _, o := range ops {
 		for v := 0; v < o.vars; v++ {
-			if o.cost == 2 && v >= heavyVariants {
+			if (o.cost == 2 && v >= heavyVariants) || o.cost >= 3 {
 				continue
 			}
 			e := CTPlanEntry{Op: len(plan), Name: o.name, Variant: v, Cost: o.cost}
@@ -620,7 +635,7 @@ func CTProbe(seed int64, tier string, only map[int]bool) []CTPlanEntry {
 	pi := 0
 	for _, o := range ops {
 		for v := 0; v < o.vars; v++ {
-			if o.cost == 2 && v >= heavyVariants {
+			if (o.cost == 2 && v >= heavyVariants) || o.cost >= 3 {
 				continue
 			}
 			e := plan[pi]
@@ -672,7 +687,7 @@ func MemPlan(seed int64, tier string) []MemPlanEntry {
 	var plan []MemPlanEntry
 	for _, o := range c17Ops() {
 		for v := 0; v < o.vars; v++ {
-			if v > 0 && tier != "thorough" {
+			if (v > 0 && tier != "thorough") || o.cost >= 3 {
 				continue
 			}
 			e := MemPlanEntry{Name: o.name, Variant: v, Cost: o.cost}
